@@ -13,7 +13,7 @@ from datetime import date, datetime, timedelta
 
 sys.path.insert(0, os.path.join(os.path.dirname(os.path.abspath(__file__)), ".."))
 from framework import Check, drive, hexs  # noqa: E402
-from lib import (BASE, C, Peer, RecSession, mkserver, com_stmt_execute, decode_binary_row, decode_text_row,
+from lib import (parse_ok, parse_eof, BASE, C, Peer, RecSession, mkserver, com_stmt_execute, decode_binary_row, decode_text_row,
                  decode_resultset, Bad)  # noqa: E402
 from defects import parse_time_text  # noqa: E402
 
@@ -298,13 +298,45 @@ async def end_to_end(chk, rng, n):
         a = Peer(srv)
         caps = rng.choice([BASE, BASE | C.CLIENT_DEPRECATE_EOF])
         await a.login(caps=caps)
-        binary = rng.random() < 0.5
-        if binary:
+        binary = rng.random() < 0.6
+        cursor = binary and rng.random() < 0.4
+        if cursor:
+            # server-side cursor: execute opens it (metadata only), the rows come in COM_STMT_FETCH batches
+            await a.cmd(b"\x16select x from t")
+            head = await a.cmd(com_stmt_execute(0, [], caps=caps, flags=1), n=80)
+            hp = [p for _, p in head]
+            dep = bool(int(caps) & int(C.CLIENT_DEPRECATE_EOF))
+            out = None
+            if hp and hp[0][:1] != b"\xff" and len(hp) == ncols + 2:
+                rowpk = []
+                batch = rng.choice([1, 2, 3, 7, 50])
+                last = hp[-1]
+                for _ in range(nrows + 3):
+                    fo = [p for _, p in await a.cmd(b"\x1c" + struct.pack("<II", 0, batch), n=80)]
+                    if not fo or fo[-1][:1] == b"\xff":
+                        rowpk = None
+                        break
+                    rowpk += fo[:-1]
+                    last = fo[-1]
+                    try:
+                        st = (parse_ok(last) if dep else parse_eof(last))["status"]
+                    except Bad:
+                        rowpk = None
+                        break
+                    if st & 0x80:      # SERVER_STATUS_LAST_ROW_SENT
+                        break
+                if rowpk is not None:
+                    out = [(0, p) for p in (hp[:-1] if dep else hp) + rowpk + [last]]
+            if out is None:
+                out = head
+        elif binary:
             await a.cmd(b"\x16select x from t")
             out = await a.cmd(com_stmt_execute(0, [], caps=caps), n=80)
         else:
             out = await a.cmd(b"\x03select x from t", n=80)
         await a.finish()
+        if cursor:
+            chk.count("e2e:cursor")
         chk.case(("e2e", tuple(int(t) for t in types), nrows, bare, mode, binary), nontrivial=nrows > 0,
                  sample=dict(types=[t.name for t in types], rows=nrows, bare_names=bare, source=mode, binary=binary) if k < 2 else None)
         chk.count("e2e:%s,%s" % ("binary" if binary else "text", "bare" if bare else "explicit"))
